@@ -235,6 +235,11 @@ def task_element(kind, which, fmt=None):
                     run.oblige("C07|%s/required-attribute-%s-is-present(own-parser-would-reject-the-definition-otherwise)" % (label, a),
                                z3.Not(is_none(I.to_term(f[a]))))
                 run.oblige("C07|%s/carries-the-format" % label, I.to_term(f["format"]) == VStr(z3.StringVal(fmt or "%f")))
+                # the property's metadata as declared (limits and step are not display values: they are not passed through the format)
+                for a in ("min", "max", "step"):
+                    decl = Dd.fields[a]
+                    decl_t = I.to_term(decl[1]) if isinstance(decl, tuple) else z3.Select(decl, s)
+                    run.oblige("C07,C01|%s/carries-the-declared-%s" % (label, a), I.to_term(f[a]) == decl_t)
         else:
             if which == "to_set_message":
                 for a in ("size", "format"):
